@@ -1,10 +1,14 @@
+mod exprrec;
+mod exprrows;
 mod lexrec;
 mod lexrows;
 mod model;
 mod progs;
 mod report;
+mod rng;
 mod session;
 mod sessrec;
+mod sessrows;
 
 use report::Report;
 use std::io::Read;
@@ -21,7 +25,12 @@ fn read_input(path: &str) -> String {
 
 fn main() {
     // Panics in the code under test are data: the hook is silenced, drivers catch_unwind.
-    std::panic::set_hook(Box::new(|_| {}));
+    // (panics of the harness itself are still printed)
+    std::panic::set_hook(Box::new(|info| {
+        if !session::IN_SUT.with(|f| f.get()) {
+            eprintln!("vh: internal panic: {}", info);
+        }
+    }));
     let args: Vec<String> = std::env::args().collect();
     let cmd = args.get(1).map(|s| s.as_str()).unwrap_or("");
     let mut rep = Report::default();
@@ -32,18 +41,50 @@ fn main() {
             lexrows::replay_rows(&text, &mut rep);
             std::fs::write(&args[3], serde_json::to_string(&rep.to_json()).unwrap()).unwrap();
         }
+        // vh expr-replay <tlc-output> <report.json>
+        "expr-replay" => {
+            let text = read_input(&args[2]);
+            exprrows::replay_rows(&text, &mut rep);
+            std::fs::write(&args[3], serde_json::to_string(&rep.to_json()).unwrap()).unwrap();
+        }
+        // vh expr-record <seed> <n> <out.ndjson>
+        "expr-record" => {
+            exprrec::record(args[2].parse().unwrap(), args[3].parse().unwrap(), &args[4]);
+        }
+        // vh rng-replay <tlc-output> <report.json>   |   vh rng-record <seed> <n> <out.ndjson>
+        "rng-replay" => {
+            let text = read_input(&args[2]);
+            rng::replay_rows(&text, &mut rep);
+            std::fs::write(&args[3], serde_json::to_string(&rep.to_json()).unwrap()).unwrap();
+        }
+        "rng-record" => {
+            rng::record(args[2].parse().unwrap(), args[3].parse().unwrap(), &args[4]);
+        }
         // vh lex-record <seed> <n> <out.ndjson>
         "lex-record" => {
             lexrec::record(args[2].parse().unwrap(), args[3].parse().unwrap(), &args[4]);
         }
-        // vh sess-record progs <seed> <n> <out.ndjson> [input] [trace] [warn]
+        // vh sess-replay <tlc-output> <report.json>
+        "sess-replay" => {
+            let text = read_input(&args[2]);
+            sessrows::replay_rows(&text, &mut rep);
+            std::fs::write(&args[3], serde_json::to_string(&rep.to_json()).unwrap()).unwrap();
+        }
+        // vh sess-record <driver> <seed> <n> <out.ndjson> <report.json> [input] [trace] [warn]
         "sess-record" => {
-            let flags: Vec<&str> = args[6..].iter().map(|s| s.as_str()).collect();
+            let flags: Vec<&str> = args[7..].iter().map(|s| s.as_str()).collect();
+            let (seed, n, out) = (args[3].parse().unwrap(), args[4].parse().unwrap(), args[5].as_str());
             match args[2].as_str() {
-                "progs" => sessrec::record_programs(args[3].parse().unwrap(), args[4].parse().unwrap(), &args[5],
-                    flags.contains(&"input"), flags.contains(&"trace"), flags.contains(&"warn")),
+                "progs" => sessrec::record_programs(seed, n, out, flags.contains(&"input"), flags.contains(&"trace"), flags.contains(&"warn"), &mut rep),
+                "breakcont" => sessrec::record_breakcont(seed, n, out, &mut rep),
+                "flags4" => sessrec::record_flags4(seed, n, out, &mut rep),
+                "runfresh" => sessrec::record_runfresh(seed, n, out, &mut rep),
+                "inputassign" => sessrec::record_inputassign(seed, n, out, &mut rep),
+                "editprobe" => sessrec::record_editprobe(seed, n, out, &mut rep),
+                "fuzz" => sessrec::record_fuzz(seed, n, out, &mut rep),
                 other => { eprintln!("unknown driver {}", other); std::process::exit(2); }
             }
+            std::fs::write(&args[6], serde_json::to_string(&rep.to_json()).unwrap()).unwrap();
         }
         _ => {
             eprintln!("usage: vh <lex-replay> ...");
